@@ -113,6 +113,8 @@ type Spec struct {
 	Action func(call ssa.CallInstruction, resolve func(ssa.Value) string) string
 	// MultiAction, when set, labels a call with any number of actions (also consulted for go and defer statements).
 	MultiAction func(call ssa.CallInstruction) []string
+	// InstrAction, when set, labels non-call instructions (map updates, stores, ...).
+	InstrAction func(in ssa.Instruction) []string
 	// Inline reports whether a statically resolved callee is analysed (summarised) rather than treated as opaque.
 	Inline func(callee *ssa.Function) bool
 	// OpaqueClobbers: an opaque call that is handed the receiver may change tracked fields to Top.
@@ -470,6 +472,16 @@ func (s *Spec) assigner(c *Config, v ssa.Value) func(*Config, string) {
 
 // step executes one non-terminator instruction.
 func (s *Spec) step(in ssa.Instruction, c *Config) []*Config {
+	if s.InstrAction != nil {
+		if _, isCall := in.(ssa.CallInstruction); !isCall {
+			if ls := s.InstrAction(in); len(ls) > 0 {
+				c = c.clone()
+				for _, a := range ls {
+					c.Acts[a] = true
+				}
+			}
+		}
+	}
 	switch x := in.(type) {
 	case *ssa.UnOp:
 		// remember the value a tracked-field load had at this point (later stores must not change it retroactively)
